@@ -533,6 +533,95 @@ func init() {
 		finish(x, n, nil, "")
 	})
 
+	// S-blocked-commit: the follower's commit callback of height 1 waits for its context (a consumer whose persistence
+	// honours cancellation). A sync to a higher height (or shutdown) must release it; the node must end above the
+	// synced block whatever the released callback reports (error / success), and never restart a round at or below it.
+	for _, nilOnCancel := range []bool{false, true} {
+		nilOnCancel := nilOnCancel
+		name := "S-blocked-commit"
+		if nilOnCancel {
+			name = "S-blocked-commit-ok"
+		}
+		registerBoth(name, []string{"C15", "C14", "C13"}, 1, 3, 4, func(x *X, cancel bool) {
+			n := newNode(x, 1)
+			n.BlockCommit[1] = true
+			n.CommitNilOnCancel = nilOnCancel
+			n.Boot()
+			feed(n, n.peerMsgs(1, "B1")) // the worker is now inside the commit callback of height 1
+			s := x.S
+			synced := false
+			s.Thread("sync", func() {
+				n.M.UpdateState(n.Ctx, kit.NewBlock(3, "B3"), n.proofFor(3, "B3"))
+				synced = true
+			})
+			var ss []sample
+			observer(n, &ss, 2)
+			addCancel(n, cancel)
+			if !s.Run(20000) {
+				x.Bad("C16", "livelock", "step horizon reached")
+			}
+			if !cancel {
+				if !synced {
+					x.Bad("C14", "updatestate-blocked-or-failed", "UpdateState did not return while the worker sits in the commit callback; blocked=%v", s.Blocked())
+				}
+				for _, c := range n.SpiCalls {
+					if !c.Returned {
+						x.Bad("C15", "spi-not-released", "%s(h%d) is still blocked although the node was told to leave that height (sync to block 3)", c.Kind, c.Height)
+					}
+				}
+				if h := uint64(n.M.State().Height()); h != 4 {
+					x.Bad("C14", "newest-sync-not-effective", "UpdateState(block 3) returned nil but the node ends at height %d (events %v)", h, tail(n.Events, 8))
+				}
+				checkSyncRounds(x, n)
+			}
+			finish(x, n, ss, "")
+		})
+	}
+
+	// S-slow-commit: the leader commits height 1 itself; its commit callback is slow and ignores its context. While
+	// it runs, a sync to block 5 is accepted. When the callback finally returns, the worker must not start height 2 as
+	// first leader under a live context (RequestNewBlockProposal(h2) would wait for ever: it only returns on
+	// cancellation): the accepted sync has to take effect, the node ends at height 6.
+	registerBoth("S-slow-commit", []string{"C14", "C15", "C13"}, 1, 3, 4, func(x *X, cancel bool) {
+		n := newNode(x, 0)
+		hold := make(chan struct{})
+		n.HoldCommit[1] = hold
+		for h := uint64(2); h <= 6; h++ {
+			n.BlockReq[h] = true
+		}
+		n.Boot()                          // leader of (h1,v0): proposes Pn0.1.0
+		feed(n, n.peerMsgs(1, "Pn0.1.0")) // quorum: the worker is now held inside the commit callback of height 1
+		s := x.S
+		synced := false
+		s.Thread("sync", func() {
+			n.M.UpdateState(n.Ctx, kit.NewBlock(5, "B5"), n.proofFor(5, "B5"))
+			synced = true
+		})
+		s.Thread("release", func() {
+			vs.Closed(hold)
+			close(hold)
+		})
+		addCancel(n, cancel)
+		if !s.Run(20000) {
+			x.Bad("C16", "livelock", "step horizon reached")
+		}
+		if !cancel {
+			if !synced {
+				x.Bad("C14", "updatestate-blocked-or-failed", "UpdateState did not return while the worker sits in the commit callback; blocked=%v", s.Blocked())
+			}
+			if h := uint64(n.M.State().Height()); h != 6 {
+				x.Bad("C14", "newest-sync-not-effective", "UpdateState(block 5) returned nil but the node ends at height %d (events %v)", h, tail(n.Events, 8))
+			}
+			for _, c := range n.SpiCalls {
+				if !c.Returned && c.Height < 6 {
+					x.Bad("C15", "spi-not-released", "%s(h%d) is still blocked although a sync to block 5 was accepted", c.Kind, c.Height)
+				}
+			}
+			checkSyncRounds(x, n)
+		}
+		finish(x, n, nil, "")
+	})
+
 	// S-state: the State object alone. One writer (the worker's role: view change, then next height), one reader
 	// taking two (height, view) snapshots. Every snapshot must be a state that existed, and snapshots never go back.
 	register(&Scenario{Name: "S-state", Props: []string{"C13"}, MaxFires: 0, Horizon: 2000, Body: func(x *X) {
